@@ -219,15 +219,30 @@ def refusals(ctx):
         ("10 IF A = 1 THEN ON ERR GOTO 20 ELSE ON ERR GOTO 20\n20 END", "refused", "two ON ERR in IF arms"),
         ('10 IF A = 1 THEN PRINT "X" ELSE IF A = 2 THEN PRINT "Y" ELSE ON ERR GOTO 20\n15 ON ERR GOTO 20\n20 END', "refused", "two ON ERR, one in a final ELSE"),
     ]
+    # the > 32699 rule through the whole pipeline (the symbolic run above covers the checker alone): programs with and
+    # without jumps, the big number first, last or in the middle, referenced or not
+    for n, want in ((32699, "ok"), (32700, "refused"), (32701, "refused"), (40000, "refused"), (63999, "refused"), (65536, "refused")):
+        cases += [
+            (f"{n} END", want, f"line {n} alone, no jump"),
+            (f"10 A = 1\n{n} PRINT A", want, f"line {n} last, no jump"),
+            (f"10 GOTO 10\n{n} END", want, f"line {n} unreferenced beside a jump"),
+            (f"10 GOTO {n}\n{n} END", want, f"line {n} referenced"),
+            (f"10 IF A = 1 THEN B = 2\n{n} REM X", want, f"line {n} after an IF without jump"),
+        ]
     for src, want, what in cases:
-        o = classify(src + "\n", plain=False, skip_procedure_headers=True)
-        ctx.stats["programs"] += 1
-        ctx.stats["obligations"] += 1
-        if o[0] == want:
-            ctx.stats["identity"] += 1
-        else:
-            ctx.violation(f"handler-rule:{what}", f"{src!r}: expected {want}, got {o[0]} {o[1] if o[0] != 'ok' else ''}", {"source": src})
-
+        is_line = what.startswith("line ")
+        for kw in (dict(), dict(filter_unused_linenum=True), dict(add_suffix=False), dict(filter_unused_linenum=True, add_suffix=False)):
+            if kw and not is_line:
+                continue
+            o = classify(src + "\n", plain=False, skip_procedure_headers=True, **kw)
+            ctx.stats["programs"] += 1
+            ctx.stats["obligations"] += 1
+            if o[0] == want:
+                ctx.stats["identity"] += 1
+            elif is_line:
+                ctx.violation(f"line-limit:{re.sub('[0-9]+', 'N', what)}:{'ok' if want == 'ok' else 'refusal'}-expected", f"{src!r} {kw}: expected {want}, got {o[0]} {o[1] if o[0] != 'ok' else ''}", {"source": src, "options": dict(kw, add_standard_prefix=False, skip_procedure_headers=True) if False else None})
+            else:
+                ctx.violation(f"handler-rule:{what}", f"{src!r}: expected {want}, got {o[0]} {o[1] if o[0] != 'ok' else ''}", {"source": src})
 
 def dispatcher(ctx):
     """run the emitted 32700 block with a symbolic error number; handler targets range over line 0, 30 and 40"""
